@@ -3,8 +3,10 @@
 package labelmap
 
 import (
+	"github.com/janelia-flyem/dvid/datastore"
 	"github.com/janelia-flyem/dvid/dvid"
 	"github.com/janelia-flyem/dvid/zzverif/vh"
+	"github.com/janelia-flyem/dvid/zzverif/vstore"
 )
 
 // VerifC08_Mapping: the versioned supervoxel->body mapping list.  m existing (version,label) entries for distinct
@@ -68,5 +70,53 @@ func VerifC08_Mapping() {
 		}
 	}
 	vh.Assert(present == wantPresent && (!present || label == wantLabel), "value() resolves to the nearest ancestor's mapping and ignores versions outside the ancestry")
+	vh.Reach("end")
+}
+
+// VerifC08_VersionCache: the per-version mapping cache: after the cache has been initialised from a leaf (as at
+// start-up) and after mappings were recorded at some versions, every version resolves a supervoxel to the mapping
+// recorded at itself or its nearest first-parent ancestor - never to one recorded at a descendant or a sibling.
+// Params: DAG nodes, max parents, initialise from the last node first (1) or query cold (0).
+func VerifC08_VersionCache() {
+	n, maxPar, warm := vh.Param(0), vh.Param(1), vh.Param(2)
+	vids, _ := datastore.VerifChooseDAG(n, maxPar)
+	for i := 1; i <= n; i++ {
+		vh.Assume(vids[i] < 128) // one-byte varints keep the encoded mapping list small (stated bound)
+	}
+	d := vNewData(vstore.New(), 1)
+	vc := newVCache(4)
+	sv := vh.U64("supervoxel")
+	has := make([]bool, n+1)
+	lbl := make([]uint64, n+1)
+	for i := 1; i <= n; i++ {
+		if vh.Choice("mappedHere", 2) == 1 {
+			has[i] = true
+			lbl[i] = vh.U64("body")
+			vh.Assume(lbl[i] < 128)
+			vc.setMapping(vids[i], sv, lbl[i])
+		}
+	}
+	if warm == 1 {
+		vh.Assert(vc.initToVersion(d, vids[n], false) == nil, "cache initialises from the leaf")
+	}
+	q := 1 + vh.Choice("query", n)
+	dist := vc.getMappedVersionsDist(vids[q])
+	got, present := vc.mapLabel(sv, dist)
+	// reference: walk the first-parent ancestry of q (what GetAncestry returns) and take the first version with a mapping
+	anc, err := datastore.GetAncestry(vids[q])
+	vh.Assert(err == nil, "ancestry available")
+	var want uint64
+	wantPresent := false
+	for _, a := range anc {
+		if wantPresent {
+			break
+		}
+		for i := 1; i <= n; i++ {
+			if vids[i] == a && has[i] {
+				want, wantPresent = lbl[i], true
+			}
+		}
+	}
+	vh.Assert(present == wantPresent && (!present || got == want), "a version resolves to its own or its nearest ancestor's mapping, never a descendant's or sibling's")
 	vh.Reach("end")
 }
